@@ -94,7 +94,7 @@ Fixpoint defs_gates (defs : defs_t) (gs : list and_gate) : res defs_t :=
     end
   end.
 
-(* Aig::lit_defs — note that latches are not looked at *)
+(* Aig::lit_defs — latches are not looked at here; Renumber::initialize checks them ([latches_fresh]) *)
 Definition lit_defs (a : aig) : res defs_t :=
   match defs_inputs (<[0 := DConstant]> ∅) 0 (a_inputs a) with
   | ROk d => defs_gates d (a_gates a)
@@ -112,6 +112,14 @@ Definition lm_get (m : litmap) (k : lit) : option lit :=
   | Some f => Some (N.lxor f (lpol k))
   | None => None
   end.
+
+(* LitMap::contains_key: the low bit of the key is masked *)
+Definition lm_contains (m : litmap) (k : lit) : bool :=
+  match m !! lkey k with Some _ => true | None => false end.
+
+(* HashMap::contains_key on the definition table: the exact literal *)
+Definition defs_contains (d : defs_t) (k : lit) : bool :=
+  match d !! k with Some _ => true | None => false end.
 
 (* From<OrderedAig<L>> for Aig<L> *)
 Fixpoint number_latches (code : N) (ls : list (lit * option bool)) : list latch :=
